@@ -299,8 +299,9 @@ def simple_specs() -> dict[str, dict[str, Any]]:
 
     def svc(i: int) -> Any:
         m = pb.HomeassistantServiceResponse(service=f"light.turn_{i}", is_event=bool(i % 2))
-        m.data.add(key="entity_id", value=f"light.x{i}")
-        m.variables.add(key="v", value=str(i))
+        if i != 1:  # one message with empty maps
+            m.data.add(key="entity_id", value=f"light.x{i}")
+            m.variables.add(key="v", value=str(i))
         return m
 
     return {
@@ -316,8 +317,9 @@ def simple_specs() -> dict[str, dict[str, Any]]:
             "subscribe": lambda c, cb: c.subscribe_service_calls(cb),
             "request": ("SubscribeHomeassistantServicesRequest", {}),
             "msgs": [svc(i) for i in range(3)],
-            "expect": lambda m: ("svc", m.service, m.is_event, {e.key: e.value for e in m.data}, {e.key: e.value for e in m.variables}),
-            "observe": lambda a: ("svc", a[0].service, a[0].is_event, dict(a[0].data), dict(a[0].variables)),
+            "expect": lambda m: ("svc", m.service, m.is_event, {e.key: e.value for e in m.data}, {e.key: e.value for e in m.variables},
+                                 {e.key: e.value for e in m.data_template}),
+            "observe": lambda a: ("svc", a[0].service, a[0].is_event, dict(a[0].data), dict(a[0].variables), dict(a[0].data_template)),
             "unsub_request": None,
         },
         "ble_adv": {
@@ -345,6 +347,22 @@ def simple_specs() -> dict[str, dict[str, Any]]:
             "unsub_request": None,
         },
     }
+
+
+def _scribble(args: tuple[Any, ...]) -> None:
+    """Modify every mutable container reachable from a callback argument (what a consumer that post-processes its input does)."""
+    import dataclasses as _dc
+
+    for a in args:
+        fields = [getattr(a, f.name, None) for f in _dc.fields(a)] if _dc.is_dataclass(a) else []
+        for v in fields + ([a] if isinstance(a, (dict, list)) else []):
+            try:
+                if isinstance(v, dict):
+                    v["__touched__"] = "by-consumer"
+                elif isinstance(v, list):
+                    v.append("__touched__")
+            except Exception:  # noqa: BLE001
+                pass
 
 
 def run_simple(tier: str) -> dict[str, Any]:
@@ -376,6 +394,7 @@ def run_simple(tier: str) -> dict[str, Any]:
 
                         def cb(*a: Any, _got: list[Any] = got, _pos: Any = pos, _holder: dict[str, Any] = holder, _sp: Any = sp) -> None:
                             _got.append(_sp["observe"](a))
+                            _scribble(a)  # a consumer may do what it likes with the object it was handed
                             if isinstance(_pos, tuple) and len(_got) == _pos[1] and _holder.get("unsub") is not None:
                                 _holder["unsub"]()
                                 _holder["unsubbed_in"] = True
